@@ -95,7 +95,7 @@ def closure_of(prog, fn, l):
     return None
 
 
-def emit_call(B, b, fop, args, ret_ty, cont):
+def emit_call(B, b, fop, args, ret_ty, cont, by_mut_ref=False):
     """in block b: r = f(args) -> cont; returns the result local.  f is a closure local or a function item constant;
     a closure body is spliced in"""
     fn, prog = B.fn, B.prog
@@ -121,6 +121,7 @@ def emit_call(B, b, fop, args, ret_ty, cont):
     fn.blocks[b]['t'] = {'k': 'call', 'f': rec, 'a': [env] + args, 'd': pl(r), 't': cont, 'u': None, 'fexp': False, 'syn': True}
     if not hasattr(fn, 'inlined'):
         fn.inlined = []
+    fn.spliced_closure_locals = getattr(fn, 'spliced_closure_locals', set()) | {cl}
     splice(fn, b, cf)
     return r
 
@@ -134,12 +135,160 @@ def closure_ret_ty(prog, fn, fop, default):
     return cf.locals[0]['ty'] if cf is not None and cf.has_body else default
 
 
+ITER = 'core::iter::traits::iterator::Iterator::'
+ITER_SEARCH = ('position', 'find', 'find_map', 'any', 'all', 'try_for_each')
+
+
+def expand_iter_site(prog, fn, bi, meth):
+    """`it.position(p)`, `find`, `find_map`, `any`, `all`, `try_for_each` with a closure: the loop they abbreviate"""
+    t = fn.blocks[bi]['t']
+    args = t['a']
+    if len(args) != 2:
+        return False
+    it = _plain(args[0])
+    fop = args[1]
+    cl = _plain(fop)
+    if it is None or cl is None:
+        return False
+    ity = fn.local_ty(it)
+    if not ity.startswith('&mut '):
+        return False
+    itty = ity[5:]
+    cf = closure_of(prog, fn, cl)
+    if cf is None or not cf.has_body or len(cf.locals) < 3:
+        return False
+    item_ty = cf.locals[2]['ty']
+    by_ref_item = meth == 'find'          # find's predicate takes &Item
+    if by_ref_item:
+        if not item_ty.startswith('&'):
+            return False
+        item_ty = item_ty[1:]
+    rty = cf.locals[0]['ty']
+    dest, cont = t['d'], t['t']
+    B = Builder(prog, fn, fn.blocks[bi].get('ln'))
+    opt_item = 'core::option::Option<%s>' % item_ty
+    head = B.block()
+    # counter for position
+    ctr = None
+    if meth == 'position':
+        ctr = B.local('usize')
+        B.assign(bi, pl(ctr), use({'k': {'ty': 'usize', 'scalar': {'bits': '0', 'size': 8, 'val': '0'}}}))
+    fn.blocks[bi]['t'] = {'k': 'goto', 't': head, 'syn': True}
+    # head: n = next(&mut *it)
+    rb = B.local(ity)
+    n = B.local(opt_item)
+    B.assign(head, pl(rb), {'k': 'ref', 'mut': True, 'p': pl(it, ['*'])})
+    nb = B.block()
+    rec = {'decl': ITER + 'next', 'declstr': ITER + 'next', 'args': [itty], 'trait': 'core::iter::traits::iterator::Iterator',
+           'self_ty': itty, 'self_param': False, 'unsafe': False, 'kind': 'item', 'key': ITER + 'next',
+           'str': '<%s as core::iter::traits::iterator::Iterator>::next' % itty, 'crate': 'core', 'has_mir': False, 'resolved': True}
+    fn.blocks[head]['t'] = {'k': 'call', 'f': rec, 'a': [mv(rb)], 'd': pl(n), 't': nb, 'u': None, 'fexp': False, 'syn': True}
+    d = B.local('isize')
+    bnone, bsome, bun = B.block(), B.block(), B.block()
+    B.assign(nb, pl(d), {'k': 'discr', 'p': pl(n), 'ty': opt_item})
+    fn.blocks[nb]['t'] = {'k': 'switch', 'd': mv(d), 'dty': 'isize', 'ts': [['0', bnone], ['1', bsome]], 'o': bun, 'syn': True}
+    # exhausted
+    unit = {'k': {'ty': '()', 'zst': True}}
+    if meth in ('position', 'find', 'find_map'):
+        B.assign(bnone, copy.deepcopy(dest), agg(OPT, 'None', 0, []))
+    elif meth == 'any':
+        B.assign(bnone, copy.deepcopy(dest), use(const_bool(False)))
+    elif meth == 'all':
+        B.assign(bnone, copy.deepcopy(dest), use(const_bool(True)))
+    else:  # try_for_each over Result<(), E>
+        if not rty.startswith(RES):
+            return False
+        B.assign(bnone, copy.deepcopy(dest), agg(RES, 'Ok', 0, [unit]))
+    B.goto(bnone, cont)
+    # an element
+    x = B.local(item_ty)
+    B.assign(bsome, pl(x), use({'m': payload(n, OPT, 'Some', 1, item_ty)}))
+    carg = mv(x)
+    if by_ref_item:
+        xr = B.local('&' + item_ty)
+        B.assign(bsome, pl(xr), {'k': 'ref', 'mut': False, 'p': pl(x)})
+        carg = mv(xr)
+    after = B.block()
+    r = emit_call(B, bsome, fop, [carg], rty, after, by_mut_ref=True)
+    if r is None:
+        return False
+    hit, miss = B.block(), B.block()
+    if meth in ('position', 'find', 'any', 'all'):
+        fn.blocks[after]['t'] = {'k': 'switch', 'd': mv(r), 'dty': 'bool', 'ts': [['0', miss if meth != 'all' else hit]], 'o': hit if meth != 'all' else miss, 'syn': True}
+        if meth == 'position':
+            B.assign(hit, copy.deepcopy(dest), agg(OPT, 'Some', 1, [{'c': pl(ctr)}]))
+            B.assign(miss, pl(ctr), {'k': 'bin', 'op': 'Add', 'l': {'c': pl(ctr)}, 'r': {'k': {'ty': 'usize', 'scalar': {'bits': '1', 'size': 8, 'val': '1'}}}, 'lty': 'usize'})
+        elif meth == 'find':
+            B.assign(hit, copy.deepcopy(dest), agg(OPT, 'Some', 1, [mv(x)]))
+        elif meth == 'any':
+            B.assign(hit, copy.deepcopy(dest), use(const_bool(True)))
+        else:
+            B.assign(hit, copy.deepcopy(dest), use(const_bool(False)))
+    else:
+        d2 = B.local('isize')
+        B.assign(after, pl(d2), {'k': 'discr', 'p': pl(r), 'ty': rty})
+        if meth == 'find_map':
+            # Some(v) -> found
+            fn.blocks[after]['t'] = {'k': 'switch', 'd': mv(d2), 'dty': 'isize', 'ts': [['0', miss], ['1', hit]], 'o': bun, 'syn': True}
+            B.assign(hit, copy.deepcopy(dest), use(mv(r)))
+        else:
+            # try_for_each: Err(e) -> stop
+            fn.blocks[after]['t'] = {'k': 'switch', 'd': mv(d2), 'dty': 'isize', 'ts': [['0', miss], ['1', hit]], 'o': bun, 'syn': True}
+            ga = generic_args(rty)
+            ety = ga[1] if len(ga) > 1 else '?'
+            B.assign(hit, copy.deepcopy(dest), agg(RES, 'Err', 1, [{'m': payload(r, RES, 'Err', 1, ety)}]))
+    B.goto(hit, cont)
+    B.goto(miss, head)
+    return True
+
+
+def expand_bool_then(prog, fn, bi, meth):
+    """`cond.then_some(v)` / `cond.then(|| v)`"""
+    t = fn.blocks[bi]['t']
+    args = t['a']
+    if len(args) != 2 or t['d']['pr'] or t['t'] is None:
+        return False
+    dest, cont = t['d'], t['t']
+    B = Builder(prog, fn, fn.blocks[bi].get('ln'))
+    bt, bf = B.block(), B.block()
+    saved = fn.blocks[bi]['t']
+    fn.blocks[bi]['t'] = {'k': 'switch', 'd': args[0], 'dty': 'bool', 'ts': [['0', bf]], 'o': bt, 'syn': True}
+    B.assign(bf, copy.deepcopy(dest), agg(OPT, 'None', 0, []))
+    B.goto(bf, cont)
+    if meth == 'then_some':
+        B.assign(bt, copy.deepcopy(dest), agg(OPT, 'Some', 1, [args[1]]))
+        B.goto(bt, cont)
+        return True
+    b2 = B.block()
+    rty = closure_ret_ty(prog, fn, args[1], '?')
+    r = emit_call(B, bt, args[1], [], rty, b2)
+    if r is None:
+        fn.blocks[bi]['t'] = saved
+        return False
+    B.assign(b2, copy.deepcopy(dest), agg(OPT, 'Some', 1, [mv(r)]))
+    B.goto(b2, cont)
+    return True
+
+
 def expand_site(prog, fn, bi):
     """expand the combinator call terminating block bi; returns True when rewritten"""
     t = fn.blocks[bi]['t']
     f = t['f']
     if 'decl' not in f or t['t'] is None or t['d']['pr']:
         return False
+    decl = f.get('declstr', '')
+    if decl.startswith(ITER) and decl[len(ITER):] in ITER_SEARCH:
+        nl, nb_ = len(fn.locals), len(fn.blocks)
+        saved = copy.deepcopy(fn.blocks[bi])
+        if expand_iter_site(prog, fn, bi, decl[len(ITER):]):
+            return True
+        fn.blocks[bi] = saved
+        del fn.locals[nl:]
+        del fn.blocks[nb_:]
+        return False
+    sname = f.get('str') or ''
+    if sname in ('core::bool::<impl bool>::then_some', 'core::bool::<impl bool>::then'):
+        return expand_bool_then(prog, fn, bi, sname.split('::')[-1])
     name = f.get('str') or f.get('declstr', '')
     comb = None
     for adt, pre in ((OPT, 'core::option::Option::<T>::'), (RES, 'core::result::Result::<T, E>::')):
